@@ -29,6 +29,7 @@ OrdCatalog == <<
   << << O(<<T("a"), ST>>, <<>>), O(<<T("rv"), ST>>, <<>>) >> >>,
   << << O(<<T("blk"), ST>>, << O(<<T("y")>>, <<>>), O(<<T("x"), ST>>, <<>>) >>) >> >>,
   << << O(<<T("rd"), ST>>, <<>>) >> >>,
+  << << O(<<T("blk"), ST>>, << O(<<T("x"), ST>>, <<>>), O(<<T("ic"), ST>>, <<>>) >>), O(<<T("top"), ST>>, <<>>) >> >>,
   << << O(<<T("blk"), ST>>, <<>>), O(<<T("ip"), TT>>, <<>>) >> >>
 >>
 \* disjointness of sibling languages over the instance universe of the patching catalogue (domain assumption of C08)
